@@ -43,8 +43,31 @@ def make_sig(cls, prm):
             shape = _enum(sh[1], sh[2])
         return csr.FieldPort.Signature(shape, prm["acc"])
     if cls == "wishbone.Signature":
-        return wishbone.Signature(addr_width=prm["aw"], data_width=prm["dw"],
-                                  granularity=prm["g"], features=set(prm["feats"]))
+        how = prm.get("feats_as", "strs")
+        if how == "enum_set":
+            arg = {wishbone.Feature(f) for f in prm["feats"]}
+        elif how == "list":
+            arg = [f for f in prm["feats"]]
+        elif how == "frozenset":
+            arg = frozenset(wishbone.Feature(f) for f in prm["feats"])
+        else:
+            arg = set(prm["feats"])
+        sig = wishbone.Signature(addr_width=prm["aw"], data_width=prm["dw"],
+                                 granularity=prm["g"], features=arg)
+        # the caller goes on using (and changing) its own collection afterwards
+        if prm.get("mutate") and isinstance(arg, (set, list)):
+            extra = [f for f in FEATS if f not in prm["feats"]]
+            if isinstance(arg, set):
+                if prm["mutate"] == "add" and extra:
+                    arg.add(wishbone.Feature(extra[0]) if how == "enum_set" else extra[0])
+                elif arg:
+                    arg.pop()
+            else:
+                if prm["mutate"] == "add" and extra:
+                    arg.append(extra[0])
+                elif arg:
+                    arg.pop()
+        return sig
     if cls == "event.Source.Signature":
         return event.Source.Signature(trigger=prm["trigger"])
     return gpio.PinSignature()
@@ -78,6 +101,8 @@ def canon(cls, prm):
             c = ("u", sh[2])
         return (c, prm["acc"])
     if cls == "wishbone.Signature":
+        # how the feature collection was spelled, and what the caller did with its own collection
+        # afterwards, are not defining parameters
         return (prm["aw"], prm["dw"], prm["g"] if prm["g"] is not None else prm["dw"],
                 tuple(sorted(prm["feats"])))
     return tuple(sorted((k, str(v)) for k, v in prm.items()))
@@ -116,7 +141,8 @@ class PortsWorld(World):
     real_components = tuple(PORT_CLASSES) + tuple(SIG_CLASSES) + ("amaranth.lib.wiring.connect",)
     stub_components = ("complementary standard interface (csr.Interface / wishbone.Interface)",
                        "seeded stimulus on the far side of connect()")
-    fault_kinds = ()
+    fault_kinds = ("caller_mutates_argument_after_construction",)
+    nontrivial_needs_fault = False
     assumptions = (
         "the signature half is plain seeded sampling of parameter tuples (a pure function of its "
         "inputs): no schedule or fault is involved and none is claimed",
@@ -149,7 +175,9 @@ class PortsWorld(World):
             dw = rng.choice([8, 16, 32, 64])
             return {"aw": rng.range(0, 12), "dw": dw,
                     "g": rng.choice([None] + [x for x in (8, 16, 32, 64) if x <= dw]),
-                    "feats": sorted(rng.subset(FEATS))}
+                    "feats": sorted(rng.subset(FEATS)),
+                    "feats_as": rng.choice(["strs", "strs", "enum_set", "list", "frozenset"]),
+                    "mutate": rng.choice([None, None, "add", "drop"])}
         if cls == "event.Source.Signature":
             return {"trigger": rng.choice(["level", "rise", "fall"])}
         return {}
@@ -158,7 +186,7 @@ class PortsWorld(World):
         q = dict(prm)
         if not prm:
             return q
-        k = rng.choice(sorted(prm))
+        k = rng.choice(sorted(x for x in prm if x not in ("feats_as", "mutate")))
         for _ in range(8):
             cand = self._params(rng, cls)
             if cand[k] != prm[k]:
@@ -224,12 +252,23 @@ class PortsWorld(World):
                 raise Violation("C20", "members-do-not-follow-parameters", 0,
                                 f"{cls}({prm}): members {got}, parameters imply {want}")
             for name, w in want.items():
+                if not hasattr(iface, name):
+                    raise Violation("C20", "members-do-not-follow-parameters", 0,
+                                    f"{cls}({prm}).create() has no member {name!r}")
                 if len(Value.cast(getattr(iface, name))) != w:
                     raise Violation("C20", "members-do-not-follow-parameters", 0,
                                     f"{cls}({prm}).create().{name} has width "
                                     f"{len(Value.cast(getattr(iface, name)))}, expected {w}")
             if not (s.flip().flip() == s):
                 raise Violation("C20", "double-flip-not-equal", 0, f"{cls}({prm})")
+            if cls == "wishbone.Signature":
+                stats.checks += 1
+                if sorted(f.value for f in s.features) != sorted(prm["feats"]):
+                    raise Violation("C20", "parameters-change-after-construction", 0,
+                                    f"{cls}({prm}): features now "
+                                    f"{sorted(f.value for f in s.features)}")
+                if prm.get("mutate"):
+                    stats.fault("caller_mutates_argument_after_construction")
         eq = (s1 == s2)
         want_eq = canon(cls, config["p1"]) == canon(cls, config["p2"])
         stats.checks += 2
